@@ -283,6 +283,47 @@ pub fn pred(p: &str, v: &Val) -> bool {
         "nfa" => v.first_tok() != Some('a'),
         "fa" => v.first_tok() == Some('a'),
         "nfb" => v.first_tok() != Some('b'),
-        _ => panic!("unknown predicate {p}"),
+        _ => match v.first_tok() {
+            Some(c) => in_class(p, &char_to_tok(c)),
+            None => in_class(p, ""),
+        },
+    }
+}
+
+/// character classes over token names (Ast.tla InClass / DigVal)
+pub fn in_class(cls: &str, t: &str) -> bool {
+    let dig = |t: &str| -> u32 {
+        match t {
+            "0" => 0,
+            "1" => 1,
+            "7" => 7,
+            "9" => 9,
+            "a" => 10,
+            "f" => 15,
+            "z" => 35,
+            _ => 99,
+        }
+    };
+    let newline = ["N", "R", "V", "F", "X", "L", "P"];
+    let iws = ["S", "T"];
+    let letter = ["a", "f", "z"];
+    let digitc = ["0", "1", "7", "9"];
+    match cls {
+        "ws" => newline.contains(&t) || iws.contains(&t),
+        "iws" => iws.contains(&t),
+        "nl" => newline.contains(&t),
+        "aidstart" => letter.contains(&t) || t == "_",
+        "aidcont" => letter.contains(&t) || t == "_" || digitc.contains(&t),
+        "uidstart" => letter.contains(&t) || t == "_" || t == "E",
+        "uidcont" => letter.contains(&t) || t == "_" || t == "E" || digitc.contains(&t),
+        _ => {
+            if let Some(r) = cls.strip_prefix("dig") {
+                dig(t) < r.parse::<u32>().unwrap_or_else(|_| panic!("unknown predicate {cls}"))
+            } else if let Some(r) = cls.strip_prefix("nz") {
+                dig(t) < r.parse::<u32>().unwrap_or_else(|_| panic!("unknown predicate {cls}")) && t != "0"
+            } else {
+                panic!("unknown predicate {cls}")
+            }
+        }
     }
 }
